@@ -58,6 +58,24 @@ CHECKS = {
             'deterministic simulation: crash-point (connection cut) and '
             'schedule search, quiescence-based hang detection, callback '
             'grammar oracle', 'DESIGN.md 4 C09'),
+    'C11': ('c11_rekey',
+            'Seeded exploration of busy multi-channel sessions with rekey by '
+            'byte threshold (from one packet up) and by virtual-clock time '
+            'limit on either or both sides (simultaneous KEXINIT), with a '
+            'passive independent decoder on the wire that derives each '
+            'epoch\'s keys from the escrowed (K, H) and the original session '
+            'id with its own KDF and cipher code; oracles: stream equality '
+            'and EOF across rekeys, progress (no endless re-exchange), only '
+            '{1-4,7,21,30-49} between own KEXINIT and NEWKEYS, session id '
+            'constant, (K, H) fresh per epoch, all wire traffic decodes '
+            'under the new keys.',
+            COMMON_NOTE + ' (K, H) are read by a tap on send_newkeys; '
+            'algorithm change between exchanges is not reachable through the '
+            'public API and is not exercised; umac and hybrid-PQ epochs are '
+            'not independently decoded.',
+            'deterministic simulation: schedule + rekey-threshold search, '
+            'virtual clock, passive reference decoder, history oracle over '
+            'ordered packet taps', 'DESIGN.md 4 C11'),
 }
 
 NOT_YET = {}
